@@ -253,7 +253,11 @@ def handleValidate (j : Json) : OpOut :=
     let failed := (Gen.checks c).filter (fun b => !b) |>.length
     let oN : Nat := getD obs "problems" 9999
     let idxs := (Gen.checks c).zipIdx.filterMap (fun (b, i) => if b then none else some i)
-    { diffs := (if failed == oN then [] else ["problems"]) ++ (match obs.getObjVal? "panic" with | .ok _ => ["panic"] | .error _ => []),
+    -- the accessors the validator and the controller read must return what the option strings say
+    let acc : List Int := getD obs "accessorNs" [c.softNs, c.hardNs, c.coolNs, c.maxAgeNs]
+    let accBad := acc != [c.softNs, c.hardNs, c.coolNs, c.maxAgeNs]
+    { diffs := (if failed == oN then [] else ["problems"]) ++ (if accBad then ["field"] else []) ++ (match obs.getObjVal? "panic" with | .ok _ => ["panic"] | .error _ => []),
+      mon := if accBad then ["C16:a duration accessor does not return what the option string says: " ++ toString acc ++ " for " ++ toString [c.softNs, c.hardNs, c.coolNs, c.maxAgeNs]] else [],
       tag := if failed == 0 then "validate:accepted" else "validate:rejected:" ++ toString idxs,
       model := Json.mkObj [("failedChecks", toJson idxs)] }
   | .error e => { diffs := ["bad-case:" ++ e] }
